@@ -221,8 +221,8 @@ theorem C05_multiroot_witness_run :
     (run (init 4 2 .loopMatch true) C05_multiroot_witness).2.map (·.root) = [0] ∧
     (run (init 4 2 .loopMatch true) C05_multiroot_witness).1.finished = true := by decide
 
-/-- PARTIAL (what is true of the multi-root runner): both safety theorems above hold for it unchanged (any `k`), and the
-    liveness statement holds when the decided value holds one object.  Missing for `k > 1`: after a failed reconstruction
+/-- PARTIAL, first part (what is true of the multi-root runner): both safety theorems above hold for it unchanged (any
+    `k`), and the liveness statement holds when the decided value holds one object (see also the fault-free theorem below).  Missing for `k > 1`: after a failed reconstruction
     of one root the loop returns, roots that already crossed the quorum edge are neither retried nor re-armed, and
     `Finished` is set by the next successful single-root pass. -/
 theorem C05_multiroot_liveness_partial (n : Nat) (hn : n = 4 ∨ n = 7 ∨ n = 10 ∨ n = 13) (k : Nat) (ms : List Msg)
@@ -241,5 +241,69 @@ theorem C05_multiroot_liveness_partial (n : Nat) (hn : n = 4 ∨ n = 7 ∨ n = 1
   · intro hk hB hBad hG hGq hGood
     subst hk
     exact C05_submit_once_quorum_good n hn .loopMatch ms G B hB hBad hG hGq hGood
+
+/-- PARTIAL, second part: the multi-root runner IS live when nobody misbehaves — for every arrival order of well-formed
+    messages that carry correct shares only (plus arbitrary malformed traffic, which is refused), once `2f+1` distinct
+    members have delivered their message every decided object has been submitted exactly once (any number `k` of objects).
+    So the defect needs a wrong share on one root while another root of the same message completes its quorum. -/
+theorem C05_multiroot_liveness_partial_faultfree (n : Nat) (hn : n = 4 ∨ n = 7 ∨ n = 10 ∨ n = 13) (k : Nat)
+    (ms : List Msg) (G : List Nat)
+    (hclean : ∀ m ∈ ms, validateForm (init n k .loopMatch true).cm (List.range k) m = none → hasBadShare m = false)
+    (hG : G.Nodup) (hGq : 2 * faultyOf n + 1 ≤ G.length)
+    (hsent : ∀ s ∈ G, ∃ m ∈ ms, m.signer = s ∧ validateForm (init n k .loopMatch true).cm (List.range k) m = none) :
+    ((run (init n k .loopMatch true) ms).2.map (·.root)).Perm (List.range k) := by
+  have hq := (C05_tie_quorum_kernel.2.2.2.2 n hn).1
+  have hcm := init_cm_nodup n k .loopMatch true
+  have hexp : (init n k .loopMatch true).expected.Nodup := by simp [init, List.nodup_range]
+  have hff0 : FF (init n k .loopMatch true) 0 [] := by
+    refine ⟨fun r s => by simp [init, Container.empty], ?_, ?_, ?_⟩
+    · intro r _; simp [init, count, signersOf, Container.empty]
+    · show 0 < quorumOf n; omega
+    · intro r _ s; simp [init, Container.empty]
+  obtain ⟨i1, i2⟩ := run_ff ms (init n k .loopMatch true) 0 [] hcm hexp (by simp [init]) rfl hclean (fun _ => hff0)
+  obtain ⟨pq, pcm, pe, _⟩ := run_params (init n k .loopMatch true) ms
+  -- some expected root exists (a well-formed message exists)
+  have hgne : G ≠ [] := by intro e; rw [e] at hGq; simp at hGq
+  obtain ⟨s0, hs0⟩ := List.exists_mem_of_ne_nil G hgne
+  obtain ⟨m0, _, _, hwf0⟩ := hsent s0 hs0
+  obtain ⟨_, _, _, _, hlen0, hperm0⟩ := validateForm_none _ _ m0 hwf0
+  have hfinished : (run (init n k .loopMatch true) ms).1.finished = true := by
+    cases hf : (run (init n k .loopMatch true) ms).1.finished with
+    | true => rfl
+    | false =>
+      exfalso
+      obtain ⟨N', P', ff, hP⟩ := i1 hf
+      -- pick an expected root
+      have hexne : (init n k .loopMatch true).expected ≠ [] := by
+        intro e
+        rw [e] at hlen0
+        have : m0.entries = [] := List.eq_nil_of_length_eq_zero hlen0.symm
+        unfold validateForm at hwf0
+        simp [this] at hwf0
+        split at hwf0 <;> simp at hwf0
+      obtain ⟨r, hr⟩ := List.exists_mem_of_ne_nil _ hexne
+      have hcnt := ff.cnt r (by rw [pe]; exact hr)
+      have hlt := ff.lt
+      have hge : G.length ≤ count (run (init n k .loopMatch true) ms).1.cm (run (init n k .loopMatch true) ms).1.c r := by
+        apply nodup_len_le_filter G _ _ hG
+        intro s hs
+        obtain ⟨m, hm, hms, hwf⟩ := hsent s hs
+        obtain ⟨_, _, _, hmem, _, _⟩ := validateForm_none _ _ m hwf
+        rw [hms] at hmem
+        refine ⟨by rw [pcm]; exact hmem, ?_⟩
+        rw [ff.pres r (by rw [pe]; exact hr) s]
+        simp [hP s (Or.inr ⟨m, hm, hms, hwf⟩)]
+      have : (run (init n k .loopMatch true) ms).1.q = quorumOf n := pq
+      omega
+  have hall := i2 rfl hfinished
+  have hnd := C05_submit_at_most_once (init n k .loopMatch true) ms hexp
+  apply (List.perm_ext_iff_of_nodup hnd List.nodup_range).2
+  intro a
+  constructor
+  · intro ha
+    obtain ⟨sub, hsub, rfl⟩ := List.mem_map.1 ha
+    simpa [init] using (C05_submit_only_valid _ ms sub hsub).2.2
+  · intro ha
+    exact hall a (by simpa [init] using ha)
 
 end Ssv.PartialSig
